@@ -640,9 +640,13 @@ func faultOffsets(data []byte, seed uint64, exhaustiveBelow int) []int {
 		out = append(out, k)
 	}
 	sort.Ints(out)
-	if len(out) > 1500 {
+	lim := 1500
+	if n > 256<<10 {
+		lim = 60 // megabyte streams: every attempt costs a full write or decode
+	}
+	if len(out) > lim {
 		// thin deterministically
-		step := len(out)/1500 + 1
+		step := len(out)/lim + 1
 		var t []int
 		for i := 0; i < len(out); i += step {
 			t = append(t, out[i])
@@ -670,7 +674,12 @@ func execFreeze(w *World, st *Step) {
 	}
 	// FreezeTo into exactly-sized and larger buffers
 	extra := []int{0, 1, 7, 64}[r.Intn(4)]
-	buf := make([]byte, int(sz)+extra)
+	// the destination is the caller's: any start address, not only an 8-aligned one
+	off := []int{0, 0, 1, 3, 4, 7}[r.Intn(6)]
+	if off != 0 {
+		w.probe("freezeto-unaligned-destination")
+	}
+	buf := make([]byte, int(sz)+extra+8)[off : off+int(sz)+extra]
 	for i := range buf {
 		buf[i] = 0xA5
 	}
